@@ -67,6 +67,11 @@ fn split_frames(stream: &[u8]) -> (Vec<Vec<u8>>, Vec<u8>, Option<&'static str>) 
 }
 
 fn rand_ack_props(r: &mut Rng) -> Option<Vec<Prop>> {
+    if rx() >= 70_000 && r.chance(1, 2) {
+        // a property block on either side of 65535 / 65536 bytes
+        let n = *r.pick(&[65_529usize, 65_530, 65_531, 65_532, 65_535]);
+        return Some(vec![Prop::ReasonString("r".repeat(n)), Prop::UserProperty("k".into(), "v".into())]);
+    }
     match r.below(4) {
         0 => None,
         1 => Some(vec![]),
@@ -103,6 +108,10 @@ pub fn rand_valid(r: &mut Rng, post_connack: bool) -> SPacket {
                     });
                 }
             }
+            if rx() >= 70_000 && r.chance(1, 2) {
+                props.retain(|p| !matches!(p, Prop::ReasonString(_)));
+                props.push(Prop::ReasonString("r".repeat(*r.pick(&[65_520usize, 65_529, 65_532, 65_535]))));
+            }
             r.shuffle(&mut props);
             let reason = if r.chance(1, 5) { *r.pick(&rc::R_CONNACK[1..]) } else { 0 };
             let mut p = SPacket::ConnAck { sp: false, reason, props };
@@ -134,6 +143,17 @@ pub fn rand_valid(r: &mut Rng, post_connack: bool) -> SPacket {
             let qos = r.below(3) as u8;
             let (mut props, ascii) = if r.chance(1, 2) { rand_server_publish_props(r) } else { (vec![], false) };
             props.retain(|p| !matches!(p, Prop::TopicAlias(_)));
+            if rx() >= 70_000 && r.chance(2, 3) {
+                // property blocks around and beyond 64 KiB
+                props.retain(|p| !matches!(p, Prop::CorrelationData(_) | Prop::ContentType(_)));
+                match r.below(3) {
+                    0 => props.push(Prop::CorrelationData(vec![0xC5; *r.pick(&[65_530usize, 65_533, 65_534, 65_535])])),
+                    1 => props.push(Prop::ContentType("t".repeat(*r.pick(&[65_530usize, 65_533, 65_535])))),
+                    _ => {
+                        props.push(Prop::UserProperty("a".repeat(40_000), "b".repeat(30_000)));
+                    }
+                }
+            }
             let topic = rand_topic(r, 10);
             let mut p = SPacket::Publish { dup: qos > 0 && r.chance(1, 5), qos, retain: r.chance(1, 3), topic, pid: (qos > 0).then_some(pid), props, payload: vec![] };
             while rc::encode_server(&p).len() > rx() {
@@ -802,7 +822,7 @@ impl Check for C08 {
                 }
             }
             3 => {
-                RX_CELL.with(|c| c.set(*rng.pick(&[64usize, 96, 96, 127, 128, 129, 200])));
+                RX_CELL.with(|c| c.set(if rng.chance(1, 24) { *rng.pick(&[65535usize, 65536, 70_000, 140_000]) } else { *rng.pick(&[64usize, 96, 96, 127, 128, 129, 200]) }));
                 let n = rng.range(1, 3);
                 let mut stream = Vec::new();
                 for _ in 0..n {
@@ -820,7 +840,7 @@ impl Check for C08 {
                 one_post(&stream, chunk, true, &mut out, "post");
             }
             _ => {
-                RX_CELL.with(|c| c.set(*rng.pick(&[64usize, 96, 96, 127, 128, 129, 200])));
+                RX_CELL.with(|c| c.set(if rng.chance(1, 24) { *rng.pick(&[65535usize, 65536, 70_000, 140_000]) } else { *rng.pick(&[64usize, 96, 96, 127, 128, 129, 200]) }));
                 let p = rand_valid(&mut rng, false);
                 let mut bytes = rc::encode_server(&p);
                 if let SPacket::ConnAck { .. } = p {
